@@ -54,4 +54,5 @@ func verifURLStubProduced(v string) bool                       { panic("symbolic
 func verifRU(s string) string                                  { panic("symbolic only") }
 func verifJoinIf(acc string, c bool, piece, sep string) string { panic("symbolic only") }
 func verifCallCount(fn string) int                             { panic("symbolic only") }
+func verifDisjointHeaps(a, b interface{}) bool                 { panic("symbolic only") }
 func verifSameObject(a, b interface{}) bool                    { panic("symbolic only") }
